@@ -342,6 +342,9 @@ class StmtMixin:
         return any(isinstance(c, type) and issubclass(ex.cls, c) for c in ts)
 
     # ---------------------------------------------------------------- loops
+    def ex_AsyncFor(self, s, fr):
+        return self.ex_For(s, fr)
+
     def ex_For(self, s, fr):
         it = self.ev(s.iter, fr)
         it = self.unwrap(it, s)
@@ -455,7 +458,7 @@ class StmtMixin:
         p = self.path
         k, lc, cf = self.loop_contract(s, fr)
         names, lvals = self.loop_targets(s)
-        tnames = {n.id for n in ast.walk(s.target) if isinstance(n, ast.Name)} if isinstance(s, ast.For) else set()
+        tnames = {n.id for n in ast.walk(s.target) if isinstance(n, ast.Name)} if isinstance(s, (ast.For, ast.AsyncFor)) else set()
 
         dictview = view is not None and view.kind == 'dict'
 
@@ -465,7 +468,10 @@ class StmtMixin:
                 env = {f'__seen{j}': VBox('set', t_, view.parts[j][0].esort) for j, t_ in enumerate(i)}
                 env['__seen'] = env['__seen0']
                 return env
-            return {'__i': i}
+            env = {'__i': i}
+            if view is not None and view.kind == 'seq':
+                env['__seq'] = view.seqs[0]          # the sequence being iterated
+            return env
 
         def inv_terms(i):
             f2 = Frame(None, state_env(i), fr.module, fr, cf.contract)
@@ -555,7 +561,7 @@ class StmtMixin:
             p.assume(g, heavy=True)
         if dictview:
             more = z3.Or(*[i[j] != snap[j][0] for j in range(len(snap))])
-        elif isinstance(s, ast.For):
+        elif isinstance(s, (ast.For, ast.AsyncFor)):
             more = i < n
         else:
             more = self.truth(self.ev(s.test, fr))
@@ -580,7 +586,7 @@ class StmtMixin:
                 self.assign(s.target, view.item(ph, kx, v_, self), fr)
                 nxt = list(i)
                 nxt[ph] = z3.Store(i[ph], kx, True)
-            elif isinstance(s, ast.For):
+            elif isinstance(s, (ast.For, ast.AsyncFor)):
                 self.assign(s.target, view.at(i), fr)
                 nxt = i + 1
             else:
